@@ -140,3 +140,13 @@ Fixpoint upto_newline (ts : list ltok) : list ltok :=
   | (TNewline, _) :: _ => []
   | t :: r => t :: upto_newline r
   end.
+
+(* ---- which location each parser function / arm returns, as a table (regenerated from the source by
+   lib/gen_exprloc.py into Gen/ExprLocArms.v; ExprLocGenFacts.v proves the parser above follows it) ---- *)
+Inductive locsrc :=
+| OwnToken        (* the `loc` bound by the arm's own token pattern *)
+| InnerLabel      (* re-bound by an inner `Token::Label { loc, .. }` pattern: the label after `@sizeof` *)
+| LeftOperand     (* `let loc = self.expr_prec_<k+1>(nodes)?` : whatever the left-most operand returned *)
+| Unknown.
+Inductive parm :=
+| AMinus | APlus | ABang | ATilde | ALessThan | AGreaterThan | AParenOpen | ANumber | AHere | ASizeOf | ALabel.
